@@ -80,6 +80,10 @@ CHECKS = {
    text="AuthCache.tla models hosts, owning clusters, per-cluster answers, the gateway's TTL caches, readiness flips and alias moves; TLC checks 'every decision is an answer of the request's own cluster' on the repaired keying (and refutes per-host keying) and simulates request sequences that alternate hosts with identical tokens / users; they are replayed on the REAL token-review authenticator and access-review authorizer over a stub cluster provider with per-cluster fake clientsets on virtual time; TLC validates every call: reviews only go to the owner, the decision equals an answer the owner gave within the TTL (and the returned identity / reason names the owner), a cluster that cannot be asked yields no authentication / a deny.",
    note="Stub cluster provider; alias moves extend the quantifier's text.",
    technique="TLC invariant on the cache model + simulated request sequences replayed on virtual time + TLC trace validation"),
+ "C09": dict(cat="model_checking", design="4/C09",
+   text="RemoteClient.tla models readiness, the applied quota and the effective limit of the gateway-side limiter under arbitrary server answers (-300,-1,0,1,L,L+1,G,G+1,25G), reply errors and readiness flaps (invariants: effective <= global; local limit while the server is unusable; pinned clamp order refuted, repaired verified); TLC-simulated reply/fault sequences are replayed on the REAL UpstreamLimiter (remote mode, real reconcile loop on virtual time) over a harness ClientSets whose clients are the fake gateway clientset with scripted reactors; after every step admission is MEASURED (max-in-flight: acquire until refused; token bucket: admissions in a 10 s window) and validated by TLC.",
+   note="Global-allocate strategy and the readiness/unknown/nil fallback; the global-count wrappers are outside (goroutine leaks prevent virtual-time runs; see DESIGN). Readiness is scripted, the real heartbeat hysteresis is not exercised.",
+   technique="TLC invariants on the client model + simulated reply/fault sequences replayed on virtual time + TLC trace validation of measured admissions"),
 }
 
 NOT_YET = {}
